@@ -495,6 +495,56 @@ theorem switch_lower_D4 (sel : Rhs) (d : Stmts) (arms : Arms) (σ : Store D4) :
 
 end SwitchLower
 
+/-! ### non-vacuity: concrete instances of the side conditions -/
+
+section Examples
+
+def constE (v : Nat) : PExpr where
+  reads := []
+  eval := fun _ => v
+  loc := fun _ _ _ => rfl
+
+def seq2 (a b : PStmt) : PStmts := .cons a (.cons b .nil)
+
+/-- `x5 = 1` is dead, `x1 = x0` reads a live offset -/
+example : ∀ x ∈ exprReadsSs (seq2 (.assign 5 (constE 1)) (.assign 1 (varE 0))), (fun x => x == 5) x = false := by decide
+
+example : exec (fun _ => 8) (dropDeadSs (fun x => x == 5) (seq2 (.assign 5 (constE 1)) (.assign 1 (varE 0)))) (fun _ => 7) 1 = 7 := by
+  decide
+
+/-- `x1 = 1; x2 = x0; x1 = x0`: the first store to `x1` is dead -/
+example : 1 ∉ readsSs (single (.assign 2 (varE 0))) ∧ 1 ∉ (varE 0).reads := by decide
+
+/-- `x2 = x0; x4 = x1; x3 = x2` ⇒ `x4 = x1; x3 = x0` -/
+example : (3 : Nat) ≠ 2 ∧ 2 ∉ readsSs (single (.assign 4 (varE 1))) ∧ 2 ∉ writesSs (single (.assign 4 (varE 1))) ∧
+    (∀ x ∈ (varE 0).reads, x ∉ writesSs (single (.assign 4 (varE 1)))) ∧ 2 ∉ readsSs .nil := by decide
+
+/-- a one-statement segment `x1 = x0` with compare set `{x0}` -/
+example : UnitOk ({ run := fun σ => updF σ 1 (σ 0), W := [1], R := [0] } : CombUnit Nat) := by
+  constructor
+  · intro σ x hx
+    simp only [List.mem_singleton] at hx
+    show updF σ 1 (σ 0) x = σ x
+    exact updF_other _ _ _ _ hx
+  · intro σ σ' h x hx
+    simp only [List.mem_singleton] at hx
+    subst hx
+    show updF σ 1 (σ 0) 1 = updF σ' 1 (σ' 0) 1
+    rw [updF_same, updF_same]
+    exact h 0 (by simp)
+
+/-- shifting the whole storage by one unit is an injective relocation -/
+example : (∀ a b : Nat, a + 1 = b + 1 → a = b) ∧ (∀ d : Nat, (fun _ : Nat => 8) (d + 1) = (fun _ : Nat => 8) d) :=
+  ⟨fun _ _ h => by omega, fun _ => rfl⟩
+
+/-- hoisting `if x0 { x1 = x0 }` through the fresh one-bit temporary `x9` -/
+example : 0 < (fun _ : Nat => 8) 9 ∧ 9 ∉ readsSs (single (.assign 1 (varE 0))) ∧ 9 ∉ readsSs .nil := by decide
+
+/-- four one-bit lanes of `5 & 3` -/
+example : ∀ j < 4, (1 : Nat).testBit j = BitOp.and.bit ((5 : Nat).testBit j) ((3 : Nat).testBit j) := by decide
+
+end Examples
+
 /-! ### the toggles the check drives -/
 
 open VerylModel.Gen in
